@@ -224,4 +224,19 @@ PROPS = {
             "not modelled: the read task's handling of sync envelopes and the lane-side value sync"
         ],
     ),
+    "C09": dict(
+        coq_targets=["Props/C09.vo"],
+        harness=[dict(pkg="h_recon", bin="c09", cases={"quick": 300, "thorough": 3000},
+                      checkers=["corr"], timeout=2400)],
+        allowed_axioms=[],
+        trusted_base=[
+            "a text is a list of Unicode scalar values; Rust `char` ranges and `to_digit(16)` as the model's numeric ranges; the identifier ranges are copied from identifier.rs and tied by correspondence on their boundary code points",
+            "the structural printer / parser (records, attributes, numbers, blobs, layouts), the incremental decoder and the typed recognizers are NOT modelled: they are checked by oracles that run only the real code (print -> parse -> compare, every cut position, typed round trips, mutated inputs)",
+        ],
+        assumptions=[
+            "theorems cover the text-token layer (every text printed by write_string_literal reads back exactly; the escape automaton inverts escape_text; surrogate escapes are rejected); everything structural is oracle-checked only (partial)",
+            "floats are finite; the oracle compares parsed values with == for the first cycle and exactly (Debug form) for the fixed point",
+            "known findings C09-F1..F3: three shapes of records (decidable predicate known_class in the harness) whose printed form does not read back; failures on values in those classes are counted as known-finding reproductions, any other failure is a violation",
+        ],
+    ),
 }
